@@ -57,7 +57,10 @@ type c14Var struct {
 //	unrelated   C14UNREL= value
 //	nested      the condition is inside .if defined(SUBJECT)
 //	cond-self   SUBJECT= value, but inside .if defined(C14OTHER) ... .endif
-var c14Contexts = []string{"", "self=", "self?=", "self+=", "sibling", "unrelated", "nested", "cond-self"}
+//	for-self    SUBJECT= value, but inside .for c14i in ${C14LIST} ... .endfor (the list may be empty)
+//	guarded     the whole fragment is wrapped in .if !defined(C14_GUARD_MK) ... .endif and assigns SUBJECT inside:
+//	            a multiple-inclusion guard (Indentation level with guard = true) when nothing precedes it
+var c14Contexts = []string{"", "self=", "self?=", "self+=", "sibling", "unrelated", "nested", "cond-self", "for-self", "guarded"}
 
 // MkLines.checkAllData.vars.IsDefined(varname): the exact name was assigned on an
 // earlier line of the file (any operator) outside of .if and .for blocks
@@ -127,7 +130,7 @@ func (v c14Var) flags() string {
 // undefined when bmake evaluates the condition (at load time)?
 func (v c14Var) mayBeUndefined(prefs bool) bool {
 	switch v.Ctx {
-	case "self=", "self?=", "self+=", "nested":
+	case "self=", "self?=", "self+=", "nested", "really-guarded":
 		// assigned unconditionally before the condition, or guarded by .if defined(SUBJECT)
 		return false
 	}
@@ -341,6 +344,11 @@ func (s c14Spec) context(cond string) (pre []string, line string, post []string)
 		line, post = ".  if "+cond, []string{".  endif", ".endif"}
 	case "cond-self":
 		pre = []string{".if defined(C14OTHER)", v.Name + "=\t" + val, ".endif"}
+	case "for-self":
+		pre = []string{".for c14i in ${C14LIST}", v.Name + "=\t" + val, ".endfor"}
+	case "guarded":
+		pre = []string{".if !defined(C14_GUARD_MK)", "C14_GUARD_MK=\t# defined", v.Name + "=\t" + val}
+		line, post = ".  if "+cond, []string{".  endif", ".endif"}
 	}
 	if where, path, ok := strings.Cut(s.Inc, "|"); ok {
 		inc := ".include \"" + path + "\""
@@ -349,6 +357,8 @@ func (s c14Spec) context(cond string) (pre []string, line string, post []string)
 			pre = append([]string{inc}, pre...)
 		case "cond":
 			pre = append([]string{".if defined(C14OTHER)", inc, ".endif"}, pre...)
+		case "for":
+			pre = append([]string{".for c14i in ${C14LIST}", inc, ".endfor"}, pre...)
 		case "after":
 			post = append(post, inc)
 		}
@@ -399,6 +409,14 @@ func c14Fline(line string) string {
 		return "A" + hx(m[1])
 	}
 	return "X"
+}
+
+// the guard line of a really guarded fragment opens a level that does not count as a condition
+func (c *c14Case) fline(l string) string {
+	if c.spec.realGuard() && l == ".if !defined(C14_GUARD_MK)" {
+		return "O1"
+	}
+	return c14Fline(l)
 }
 
 // are the preferences loaded for sure when bmake reaches the line after [pre]; is there a prefs include that may or may not happen
@@ -766,7 +784,7 @@ func (st *c14State) runCases(cases []*c14Case) {
 		before := c.before()
 		toks := []string{"f", map[bool]string{true: "1", false: "0"}[c.spec.Hacks], fmt.Sprint(len(before))}
 		for _, l := range before {
-			toks = append(toks, c14Fline(l))
+			toks = append(toks, c.fline(l))
 		}
 		toks = append(toks, hx(c.line), "1", hx(c.v.Name), c.v.flags(), fmt.Sprint(len(c.mmn)))
 		for _, p := range sortedKeys(c.mmn) {
@@ -809,6 +827,12 @@ func (st *c14State) runCases(cases []*c14Case) {
 	for _, c := range cases {
 		res.TracesValidated++
 		// the harness' own reading of the lines before the condition against the Coq spec's (Spec/PrefsFile.v sure_after)
+		if c.spec.realGuard() {
+			res.Count("guarded_fragment_cases", 1)
+			if c.newLine != c.line && !strings.Contains(c.newLine, ":U") {
+				res.Count("guarded_fragment_rewritten_without_U", 1)
+			}
+		}
 		if c.spec.Hacks {
 			res.Count("hacks_mk_cases", 1)
 		} else if c.prefsSure != c.model.specPrefs || c.condInc != c.model.specCondInc {
@@ -919,7 +943,7 @@ func (st *c14State) cause(c *c14Case, kind, from string, v *string, n byte) stri
 		// Tools.SeenPrefs is set by an include inside a conditional block, which may or may not happen
 		return kind + "/undefined/conditional-include"
 	}
-	if v == nil && n == 'M' && c.v.Ctx == "cond-self" && c.spec.Inc == "" && kind != "and" {
+	if v == nil && n == 'M' && (c.v.Ctx == "cond-self" || c.v.Ctx == "for-self") && c.spec.Inc == "" && kind != "and" {
 		// isDefined takes an assignment inside a conditional block as a guarantee
 		return kind + "/undefined/conditional-assignment"
 	}
@@ -1147,12 +1171,20 @@ func c14NewCase(s c14Spec) *c14Case {
 	cond, tree := s.build()
 	pre, line, post := s.context(cond)
 	c := &c14Case{spec: s, layer: "unit", line: line, pre: pre, post: post, tree: tree, v: s.variable()}
+	if s.realGuard() {
+		c.v.Ctx = "really-guarded" // assigned for sure: the guard's condition holds whenever the file is read
+	}
 	c.prefsSure, c.condInc = c14PrefsSure(c.before())
 	if s.Hacks {
 		// mk/bsd.hacks.mk, which reads the package's hacks.mk, is included by bsd.pkg.mk after bsd.prefs.mk
 		c.prefsSure = true
 	}
 	return c
+}
+
+// findGuardLine: the .if !defined(X) is the file's multiple-inclusion guard iff it is the only statement of the file
+func (s c14Spec) realGuard() bool {
+	return s.Ctx == "guarded" && !s.Prefs && s.Inc == ""
 }
 
 // the lines of the generated fragment before the condition (after the CVS id line)
@@ -1259,7 +1291,7 @@ func c14Exhaustive(thorough bool) []c14Spec {
 		for _, cb := range []struct {
 			def   string
 			prefs bool
-		}{{"U", true}, {"P", true}, {"P", false}, {"D", true}, {"N", true}} {
+		}{{"U", true}, {"P", true}, {"P", false}, {"D", true}, {"N", true}, {"U", false}} {
 			if (cb.def == "D" || cb.def == "N") && tag != "YN" && tag != "EA" {
 				continue
 			}
@@ -1354,6 +1386,9 @@ func c14IncludeContexts() []string {
 		for _, p := range c14IncludePaths {
 			out = append(out, where+"|"+p)
 		}
+	}
+	for _, p := range []string{"../../mk/bsd.prefs.mk", "../../devel/libfoo/buildlink3.mk", "options.mk", "../../devel/libfoo/Makefile.common"} {
+		out = append(out, "for|"+p)
 	}
 	return out
 }
@@ -1527,7 +1562,7 @@ func (st *c14State) crossFileCases(sb *strings.Builder) int {
 	for i, c := range st.crossF {
 		var fl []string
 		for _, l := range c.before() {
-			fl = append(fl, c14CoqFline(c14Fline(l)))
+			fl = append(fl, c14CoqFline(c.fline(l)))
 		}
 		fg := c.v.flags()
 		var vi []string
@@ -1761,17 +1796,17 @@ func (st *c14State) wholeRunCases(cases []*c14Case, tag string) {
 	outb, _ := cmd.CombinedOutput()
 	after, err := os.ReadFile(target)
 	if err != nil {
-		res.Broken = "whole-run: " + err.Error()
+		st.implBroke("whole-run: the rewritten file cannot be read back: " + err.Error())
 		return
 	}
 	if strings.Contains(string(outb), "FATAL") || strings.Contains(string(outb), "panic: ") || strings.Contains(string(outb), "goroutine ") {
-		res.Broken = "whole-run: pkglint failed on the generated tree: " + string(outb)
+		st.implBroke("whole-run: pkglint failed on the generated tree: " + string(outb))
 		return
 	}
 	alines := strings.Split(string(after), "\n")
 	for ln, c := range lineOf {
 		if ln-1 >= len(alines) || !c14ReDirective.MatchString(alines[ln-1]) {
-			res.Broken = fmt.Sprintf("whole-run: line %d of the rewritten file is not an .if line", ln)
+			st.implBroke(fmt.Sprintf("whole-run: line %d of the rewritten file is not an .if line", ln))
 			return
 		}
 		c.newLine = alines[ln-1]
@@ -1849,6 +1884,16 @@ func (st *c14State) wholeRun(rng *Rng, nfiles, perFile int) {
 		}
 		st.wholeRunCases(cases, fmt.Sprint(fi))
 	}
+}
+
+// a failure of the whole-run machinery that the implementation under test caused (the binary died, the rewritten file
+// lost a line): a broken correspondence, reported as a violation without a failing input -- never res.Broken (exit 2)
+func (st *c14State) implBroke(what string) {
+	if len(what) > 1500 {
+		what = what[:1500]
+	}
+	st.res.AddViolation(Violation{Key: "C14/wholerun/pkglint-failed", What: what, FoundInput: false,
+		Replay: map[string]any{"broken": "whole run of the real binary on the generated tree", "detail": what}})
 }
 
 // ---------- LoadsPrefs: real code = model (Model/CondFile.v loads_prefs), model within the reference (Spec/PrefsFile.v) ----------
@@ -2046,7 +2091,7 @@ func (st *c14State) wholeRunIncludes(rng *Rng, tag string) {
 	cmd.Dir = filepath.Join(root, "cat/pkg")
 	outb, _ := cmd.CombinedOutput()
 	if strings.Contains(string(outb), "FATAL") || strings.Contains(string(outb), "panic: ") || strings.Contains(string(outb), "goroutine ") {
-		res.Broken = "whole-run includes: pkglint failed on the generated tree: " + string(outb)
+		st.implBroke("whole-run includes: pkglint failed on the generated tree: " + string(outb))
 		return
 	}
 	st.judgeIncludes(root, conds)
@@ -2101,7 +2146,7 @@ func (st *c14State) wholeRunMakefiles(rng *Rng, tag string) {
 		cmd.Dir = filepath.Join(root, "cat/pkg")
 		outb, _ := cmd.CombinedOutput()
 		if strings.Contains(string(outb), "FATAL") || strings.Contains(string(outb), "panic: ") || strings.Contains(string(outb), "goroutine ") {
-			res.Broken = "whole-run makefiles: pkglint failed on the generated tree: " + string(outb)
+			st.implBroke("whole-run makefiles: pkglint failed on the generated tree: " + string(outb))
 			os.RemoveAll(root)
 			return
 		}
@@ -2123,14 +2168,14 @@ func (st *c14State) judgeIncludes(root string, conds []*c14IncCond) {
 		if !ok {
 			b, err := os.ReadFile(filepath.Join(root, "cat/pkg", c.file))
 			if err != nil {
-				res.Broken = "whole-run includes: " + err.Error()
+				st.implBroke("whole-run includes: the rewritten file cannot be read back: " + err.Error())
 				return
 			}
 			ls = strings.Split(string(b), "\n")
 			cache[c.file] = ls
 		}
 		if c.lineno-1 >= len(ls) || !c14ReDirective.MatchString(ls[c.lineno-1]) {
-			res.Broken = fmt.Sprintf("whole-run includes: line %d of the rewritten %s is not an .if line", c.lineno, c.file)
+			st.implBroke(fmt.Sprintf("whole-run includes: line %d of the rewritten %s is not an .if line", c.lineno, c.file))
 			return
 		}
 		nl := ls[c.lineno-1]
@@ -2293,7 +2338,7 @@ func runC14(ctx *Ctx) *Result {
 			{"nested_pattern_cases", 2000}, {"nested_preserved", 500},
 			// what feeds isDefined: includes of prefs files and near misses, before / conditionally before / after the condition
 			{"include_context_cases", 3000}, {"include_before_loads", 400}, {"include_before_nearmiss", 400}, {"include_cond_loads", 400}, {"include_after_loads", 400},
-			{"seenprefs_no", 2000}, {"seenprefs_and_really_loaded", 2000}, {"loadsprefs_true", 300}, {"loadsprefs_false", 5000}, {"hacks_mk_cases", 100},
+			{"seenprefs_no", 2000}, {"seenprefs_and_really_loaded", 2000}, {"loadsprefs_true", 300}, {"loadsprefs_false", 5000}, {"hacks_mk_cases", 100}, {"guarded_fragment_cases", 200}, {"guarded_fragment_rewritten_without_U", 50},
 			{"wholerun_include_rewritten", 60}, {"wholerun_include_rewritten_with_U", 20}, {"wholerun_include_rewritten_without_U", 5}, {"wholerun_hacks_rewritten_without_U", 2},
 			{"vm_compute_cross_checked_model_runs", 20}} {
 			n, _ := res.Distribution[fl.key].(int)
